@@ -33,6 +33,7 @@ import numpy as np
 from mc import alphabets as A
 from mc import refmodels as R
 from mc.explorer import histories
+from mc.generic import generic
 from mc.runner import HarnessError, digest
 
 SPEC = dict(
@@ -50,7 +51,7 @@ SPEC = dict(
     bound=dict(
         quick=(
             "15 aggregators in 29 configurations (CAGrad(0), CAGrad(2) only in the reject cases); all {-1,0,1} matrices of shapes <= 2x3 and 3x1, 3x2 plus D(seed) shapes 1x1, 1x3, "
-            "3x1, 2x3, 3x3, 4x2, 5x3; CAGrad on all shapes <= 2x2, 1x3, 3x1 and on the structural sublist canonical_ternary of 2x3, 3x2; "
+            "3x1, 4x2, 5x3 and G(seed) shapes 2x3, 3x3, 4x5; CAGrad on all shapes <= 2x2, 1x3, 3x1 and on the structural sublist canonical_ternary of 2x3, 3x2; "
             "SCALES32 x float32, SCALES64 x float64; histories <= 3 over two 4-matrix alphabets; seeds 0..7"
         ),
         thorough="as quick but all {-1,0,1} matrices up to 3x3 for every aggregator including CAGrad(0.5); CAGrad(0), CAGrad(2) on all shapes <= 2x2, 1x3, 3x1",
@@ -202,7 +203,8 @@ def _blocks(n, size):
     return [(lo, min(n, lo + size)) for lo in range(0, n, size)]
 
 
-DENSE_SHAPES = [(1, 1), (1, 3), (3, 1), (2, 3), (3, 3), (4, 2), (5, 3)]
+DENSE_SHAPES = [(1, 1), (1, 3), (3, 1), (4, 2), (5, 3)]  # from D(seed), as DESIGN C11 asks
+GENERIC_SHAPES = [(2, 3), (3, 3), (4, 5)]  # from G(seed) (mc/generic.py): D(seed) is rank 2 up to rounding when m, n >= 3
 HIST_KEYS_ANY = ["UPGrad", "UPGrad[ne=1e-13]", "DualProj", "MGDA", "PCGrad", "IMTLG", "AlignedMTL", "ConFIG", "GradDrop", "Mean", "Random",
                  "Sum", "TrimmedMean(0)", "CAGrad(0.5)"]
 HIST_KEYS_M3 = ["UPGrad[inc]", "DualProj[tiny]", "AlignedMTL[inc]", "ConFIG[inc]", "Constant", "GradDrop[leak]", "Krum(0,1)", "Krum(0,2)",
@@ -236,10 +238,11 @@ def gen_cases(tier, seed):
     for (m, n) in small if tier == "thorough" else []:  # further CAGrad parameters on the small shapes
         for lo, hi in _blocks(A.ternary_count(m, n), 6):
             cases.append(dict(kind="scale", src="ternary", m=m, n=n, lo=lo, hi=hi, group="cagrad-extra", seed=seed))
-    for (m, n) in DENSE_SHAPES:
-        for lo, hi in _blocks(8, 4):
-            cases.append(dict(kind="scale", src="dense", m=m, n=n, lo=lo, hi=hi, group="fast", seed=seed))
-            cases.append(dict(kind="scale", src="dense", m=m, n=n, lo=lo, hi=hi, group="cagrad", seed=seed))
+    for src, shapes_ in (("dense", DENSE_SHAPES), ("generic", GENERIC_SHAPES)):
+        for (m, n) in shapes_:
+            for lo, hi in _blocks(8, 4):
+                cases.append(dict(kind="scale", src=src, m=m, n=n, lo=lo, hi=hi, group="fast", seed=seed))
+                cases.append(dict(kind="scale", src=src, m=m, n=n, lo=lo, hi=hi, group="cagrad", seed=seed))
     return cases
 
 
@@ -257,6 +260,8 @@ def _matrices(case):
         return [A.ternary_index(case["m"], case["n"], i) for i in range(case["lo"], case["hi"])]
     if case["src"] == "canonical":
         return _canon(case["m"], case["n"])[case["lo"] : case["hi"]]
+    if case["src"] == "generic":
+        return generic(case["seed"], case["m"], case["n"], 8)[case["lo"] : case["hi"]]
     return A.dense(case["seed"], case["m"], case["n"], 8)[case["lo"] : case["hi"]]
 
 
